@@ -3,7 +3,7 @@ import json, os, subprocess, sys
 from pcv import core, setbuild, capio
 
 P = "PcVerif.Props.C10."
-THEOREMS = [P + t for t in ["reader_flags_pinned", "read_independent_of_history", "fresh_results_isolated", "languages_in_first_appearance_order"]]
+THEOREMS = [P + t for t in ["reader_flags_pinned", "read_independent_of_history", "fresh_results_isolated", "languages_in_first_appearance_order", "no_process_wide_memo", "constructed_objects_distinct"]]
 
 
 def make(tier, seed):
